@@ -331,7 +331,11 @@ impl View {
     /// the hypothesis of `eq_linear_scan`: valid FUNCs pairwise disjoint; within each FUNC valid lines
     /// pairwise disjoint and same-depth inlinees pairwise disjoint as half-open intervals
     /// `[addr, addr+size)` (computed without wrap-around); WIN records of each type pairwise disjoint
-    fn non_overlapping(&self) -> bool {
+    ///
+    /// `strict = false`: plain set semantics — a size-0 inlinee is an empty interval and overlaps
+    /// nothing. The two differ exactly when a size-0 inlinee lies strictly inside a sibling of the
+    /// same depth (known finding `C11-zero-size-inlinee`).
+    fn non_overlapping(&self, strict: bool) -> bool {
         let fr: Vec<_> = self.funcs.iter().filter_map(|f| range_excl(f.addr, f.size)).collect();
         if !pairwise_disjoint(&fr) {
             return false;
@@ -350,7 +354,7 @@ impl View {
             for i in 0..f.inls.len() {
                 for j in i + 1..f.inls.len() {
                     let (x, y) = (&f.inls[i], &f.inls[j]);
-                    if x.0 == y.0 {
+                    if x.0 == y.0 && (strict || (x.2 > 0 && y.2 > 0)) {
                         let xe = x.1 as u128 + x.2 as u128;
                         let ye = y.1 as u128 + y.2 as u128;
                         if !(xe <= y.1 as u128 || ye <= x.1 as u128) {
@@ -423,7 +427,7 @@ impl View {
 }
 
 /// the property's oracle on one implementation answer
-fn oracle(v: &View, clean: bool, base: u64, instr: u64, got: &Frame, ws: Option<&Frame>, msize: u32, out: &mut Vec<(String, String)>, tags: &mut Vec<String>) {
+fn oracle(v: &View, clean: bool, clean_set: bool, base: u64, instr: u64, got: &Frame, ws: Option<&Frame>, msize: u32, out: &mut Vec<(String, String)>, tags: &mut Vec<String>) {
     let mut fail = |class: &str, detail: String| out.push((class.to_string(), format!("instr {instr} base {base}: {detail}")));
     // bases never exceed the instruction
     if let Some((_, b, _)) = &got.func {
@@ -494,6 +498,9 @@ fn oracle(v: &View, clean: bool, base: u64, instr: u64, got: &Frame, ws: Option<
         }
         None => {
             tags.push("fn:none".into());
+            if covering.is_empty() && v.pubs.iter().any(|p| p.0 <= a) {
+                tags.push("public-cut-off".into());
+            }
             if let Some(f) = covering.iter().find(|f| isolated(f)) {
                 fail("isolated-func-not-reported", format!("FUNC {} covers the address", f.name));
             }
@@ -585,10 +592,13 @@ fn oracle(v: &View, clean: bool, base: u64, instr: u64, got: &Frame, ws: Option<
         }
     }
     // non-overlapping files: the result equals the independent linear scan
-    if clean {
+    // (files that are non-overlapping only because a size-0 INLINE range is an empty interval: the
+    //  known finding — such a range hides the sibling it lies in from the (depth, address) search)
+    if clean || clean_set {
         let want = v.linear_scan(base, instr);
         if want != *got {
-            fail("differs-from-linear-scan", format!("fill_symbol {got:?}, linear scan {want:?}"));
+            let class = if clean { "differs-from-linear-scan" } else { "zero-size-inlinee-hides-sibling" };
+            fail(class, format!("fill_symbol {got:?}, linear scan {want:?}"));
         }
     }
 }
@@ -650,6 +660,9 @@ impl Gen<'_> {
             }
             if self.rng.chance(1, 14) {
                 rs.push((pieces[i].0, 0)); // zero-size inlinee at the start (sorts before its sibling)
+            }
+            if self.rng.chance(1, 40) && pieces[i].1 > pieces[i].0 + 1 {
+                rs.push((pieces[i].0 + 1, 0)); // zero-size inlinee strictly inside its sibling (known finding)
             }
             let depth = if !self.clean && self.rng.chance(1, 25) { d + 1 } else { d }; // depth gap
             out.push(R::Inline(depth, line, file, origin, rs));
@@ -996,9 +1009,47 @@ fn exec_inner(case: &str) -> ImplResult {
             }
         };
         let v = view(&c.recs);
-        let clean = v.non_overlapping();
+        let clean = v.non_overlapping(true);
+        let clean_set = v.non_overlapping(false);
         res.tags.push(if clean { "file:non-overlapping".into() } else { "file:overlapping".into() });
+        if clean_set && !clean {
+            res.tags.push("file:non-overlapping-but-zero-size-inlinee-inside-sibling".into());
+        }
         res.tags.push(format!("funcs:{}", v.funcs.len()));
+        // generator quality: which of the quantifier's shapes this file has
+        if v.funcs.iter().any(|f| f.lines.iter().any(|l| l.1 == 0)) {
+            res.tags.push("has:zero-size-line".into());
+        }
+        if v.funcs.iter().any(|f| f.size > 0 && f.addr.checked_add(f.size as u64).is_none()) {
+            res.tags.push("has:func-range-overflow".into());
+        }
+        if v.funcs.iter().any(|f| f.inls.iter().any(|i| i.1.checked_add(i.2 as u64).is_none())) {
+            res.tags.push("has:inlinee-end-overflow".into());
+        }
+        if v.funcs.iter().any(|f| {
+            f.inls.iter().enumerate().any(|(i, x)| f.inls.iter().skip(i + 1).any(|y| x.0 == y.0 && x.1 == y.1))
+        }) {
+            res.tags.push("has:duplicate-inlinee-key".into());
+        }
+        if v.funcs.iter().any(|f| f.inls.iter().any(|i| !v.origins.contains_key(&i.5))) {
+            res.tags.push("has:missing-origin".into());
+        }
+        if c.recs.iter().any(|r| matches!(r, R::OriginIn(..))) {
+            res.tags.push("has:origin-inside-func".into());
+        }
+        if c.recs.iter().any(|r| matches!(r, R::Inline(_, _, _, _, rs) if rs.len() > 1)) {
+            res.tags.push("has:multi-range-inline".into());
+        }
+        if !v.wins.is_empty() {
+            res.tags.push("has:stack-win".into());
+        }
+        if v.pubs.iter().enumerate().any(|(i, p)| v.pubs.iter().skip(i + 1).any(|q| q.0 == p.0)) {
+            res.tags.push("has:publics-same-address".into());
+        }
+        let maxd = v.funcs.iter().flat_map(|f| f.inls.iter().map(|i| i.0)).max();
+        if let Some(d) = maxd {
+            res.tags.push(format!("max-inline-depth:{}", d.min(9)));
+        }
         res.tags.push(format!(
             "base:{}",
             match c.base {
@@ -1039,7 +1090,7 @@ fn exec_inner(case: &str) -> ImplResult {
                 if fr.func.is_some() {
                     res.nontrivial = true;
                 }
-                oracle(&v, clean, c.base, q, fr, ws.as_ref().ok(), c.msize, &mut res.oracle, &mut res.tags);
+                oracle(&v, clean, clean_set, c.base, q, fr, ws.as_ref().ok(), c.msize, &mut res.oracle, &mut res.tags);
             }
             parts.push(format!("{q}:{a};ws={b}"));
         }
@@ -1055,7 +1106,7 @@ impl Engine for Symb {
         "symb"
     }
     fn rule(&self) -> String {
-        "case = (symbol records, module base, module size, instruction addresses). Files: 0..4 FUNCs with line tables (gaps, zero-size, duplicate/overlapping lines), INLINE records nested to depth 8 with multi-range records, zero-size/duplicate/overlapping/depth-gap inlinees, INLINE_ORIGIN before/inside/after FUNC blocks or missing, PUBLICs before/at/inside/after FUNCs incl. equal addresses, duplicate FILE ids, STACK WIN 4/0 parameter sizes; half of the files non-overlapping (linear-scan oracle applies), half with overlapping/duplicate FUNCs. Regions: low addresses, around 2^32, top of the u64 space. Bases {0, 0x1000, 2^32, 2^64-1-k}. Addresses: start-1, start, end-1, end of every record + base-1, base, one random. non-trivial = at least one address resolved to a function; distinct = distinct case line".into()
+        "case = (symbol records, module base, module size, instruction addresses). exhaustive small domains (see exhaustive_part) + random files: 0..4 FUNCs with line tables (gaps, zero-size, duplicate/overlapping lines), INLINE records nested to depth 8 with multi-range records, zero-size/duplicate/overlapping/depth-gap inlinees, INLINE_ORIGIN before/inside/after FUNC blocks or missing, PUBLICs before/at/inside/after FUNCs incl. equal addresses, duplicate FILE ids, STACK WIN 4/0 parameter sizes; half of the files non-overlapping (linear-scan oracle applies), half with overlapping/duplicate FUNCs. Regions: low addresses, around 2^32, top of the u64 space. Bases {0, 0x1000, 2^32, 2^64-1-k}. Addresses: start-1, start, end-1, end of every record + base-1, base, one random. non-trivial = at least one address resolved to a function; distinct = distinct case line".into()
     }
     fn exhaustive_part(&self) -> Option<String> {
         Some("all lists of <= 2 (quick) / <= 3 (thorough) INLINE ranges over depth {0,1} x start {4,6,8} x size {0,2,4} inside FUNC 4 8, every address 3..=13; all choices of <= 2 FUNCs (from 5) and <= 2 PUBLICs (from 7 addresses), every address 0..=11; bases 0 and 2^64-14".into())
